@@ -293,6 +293,8 @@ func appendSetq(b []byte, s *slip.Scope, vv *slip.VarVal) (out []byte) {
 func ppValue(v slip.Object) (pv slip.Object) {
 	pv = v
 	switch tv := v.(type) {
+	case slip.Symbol:
+		pv = slip.LoadFormValue(tv)
 	case slip.List:
 		if 0 < len(tv) {
 			pv = slip.List{slip.Symbol("quote"), tv}
